@@ -1782,6 +1782,10 @@ P.theorems = P.theorems + [
      "__circle(p,q) in exact arithmetic: both points on the circle, no disc containing both is smaller (the true minimal circle)"),
     ("TracklibVerif.Props.C12MinCircle", "TV.C12.circle_three",
      "__circle(p1,p2,p3) in exact arithmetic: None iff collinear; the random.random() perturbation branches are dead; otherwise a circle enclosing the three points — a two-point CANDIDATE (then the smallest disc containing the three points, third point strictly inside, NOT on the circle) or, with no candidate, the circle THROUGH the three points"),
+    ("TracklibVerif.Props.C12MinCircle", "TV.C12.circle_three_minimal",
+     "__circle(p1,p2,p3) in exact arithmetic is the TRUE minimal enclosing circle of its three points in both cases (no candidate: the circumcentre is a convex combination of the points); Welzl's recursion needs the circle with the three points ON it — they differ exactly when there is a candidate: the defect behind mincircle_not_enclosing"),
+    ("TracklibVerif.Props.C12MinCircle", "TV.C12.mincircle_small",
+     "inputs of 0, 1, 2 fixes, EVERY draw sequence: the zero circle at (0,0) / on the fix / the circle on the diameter of two fixes that ENUCoords.__eq__ tells apart = the true minimal circle"),
     ("TracklibVerif.Props.C12MinCircle", "TV.C12.mincircle_answer",
      "for EVERY draw sequence: the model neither runs out of fuel nor perturbs; the answer is the leaf circle of a list R' of input points and, when a circle, encloses the (up to three) points it is built on — nothing more (mincircle_not_enclosing)"),
     ("TracklibVerif.Props.C12MinCircle", "TV.C12.mincircle_none_only_collinear",
